@@ -1,6 +1,6 @@
 (* ChainParse.v — C16 at every depth, from the path text: a path made of any number of name steps, each in any of
    the three spellings ( ["k"]  ['k']  .k ), is accepted by the grammar and builds the chain of single-name steps. *)
-From JP Require Import Peg Grammar Text Tree Actions PegFacts PegMono PegEv Codec FuelRules ParseFacts KeyDefs KeyParse.
+From JP Require Import Peg Grammar Slice Text Tree Actions PegFacts PegMono PegEv Codec FuelRules ParseFacts KeyDefs KeyParse IdxParse.
 From Coq Require Import Lia.
 Local Open Scope N_scope.
 Open Scope list_scope.
@@ -9,11 +9,13 @@ Definition step_ok (s : kstep) : bool :=
   match s with
   | SBr q _ => (q =? 34) || (q =? 39)
   | SDot k => match k with [] => false | _ :: _ => forallb dot_char k end
+  | SIdx ds => match ds with [] => false | _ :: _ => forallb is_digit ds && (match atoi ds with Some _ => true | None => false end) end
   end.
 Definition step_tokens (p : nat) (s : kstep) : list token :=
   match s with
   | SBr q k => let n := List.length (esc_cps q k) in [TText (p + 2) (p + 2 + n); TAct (qact q); TText p (p + n + 4); TAct 7]
   | SDot k => let n := List.length (esc_dot_cps k) in [TText (p + 1) (p + 1 + n); TAct 10; TText p (p + 1 + n); TAct 4]
+  | SIdx ds => idx_tokens p ds
   end.
 Fixpoint steps_tokens (p : nat) (steps : list kstep) : list token :=
   match steps with
@@ -26,8 +28,11 @@ Proof. cbn [render_step List.length]. rewrite app_length. cbn [List.length]. lia
 Lemma render_len_dot k : List.length (render_step (SDot k)) = (1 + List.length (esc_dot_cps k))%nat.
 Proof. reflexivity. Qed.
 
+Lemma render_len_idx ds : List.length (render_step (SIdx ds)) = (List.length ds + 2)%nat.
+Proof. cbn [render_step List.length]. rewrite app_length. cbn [List.length]. lia. Qed.
+
 Lemma steps_stop steps : dot_stop (render_steps steps).
-Proof. destruct steps as [|[q k|k] r]; cbn; auto. Qed.
+Proof. destruct steps as [|[q k|k|ds] r]; cbn; auto. Qed.
 
 Lemma q_ok q : (q =? 34) || (q =? 39) = true -> q = 34 \/ q = 39.
 Proof. intros H. apply orb_true_iff in H. destruct H as [H|H]; apply N.eqb_eq in H; auto. Qed.
@@ -36,11 +41,14 @@ Proof. intros H. apply orb_true_iff in H. destruct H as [H|H]; apply N.eqb_eq in
 Lemma ev_rule7_step s rest pos : step_ok s = true -> dot_stop rest ->
   evG (PRef 7) (render_step s ++ rest) pos (POk rest (pos + List.length (render_step s)) (step_tokens pos s)).
 Proof.
-  intros Hs Hr. destruct s as [q k|k].
+  intros Hs Hr. destruct s as [q k|k|ds].
   - cbn [step_ok] in Hs. apply q_ok in Hs. rewrite render_len_br. cbn [render_step step_tokens app].
     rewrite <- app_assoc. cbn [app]. eapply ev_conv; [apply ev_rule7; exact Hs|]. f_equal. lia.
   - destruct k as [|c k]; [discriminate Hs|]. cbn [step_ok] in Hs. rewrite render_len_dot. cbn [render_step step_tokens app].
     eapply ev_conv; [apply ev_rule7_dot; [exact Hs|exact Hr]|]. f_equal. lia.
+  - destruct ds as [|d ds]; [discriminate Hs|]. cbn [step_ok] in Hs. apply andb_true_iff in Hs. destruct Hs as [Hd _].
+    rewrite render_len_idx. cbn [render_step step_tokens]. cbn [app]. rewrite <- app_assoc. cbn [app].
+    eapply ev_conv; [apply (ev_rule7_idx d ds rest pos); exact Hd|]. f_equal. lia.
 Qed.
 Lemma render_step_len_pos s : (1 <= List.length (render_step s))%nat.
 Proof. destruct s; cbn [render_step List.length]; lia. Qed.
@@ -107,21 +115,31 @@ Section ChainExec.
 
   Definition mk (ps : list item) : pstate := {| params := ps; saved := []; proot := None |}.
   Definition step_key (s : kstep) : string := string_of_bytes (utf8 (step_cps s)).
+  Definition step_idx (ds : list N) : Z := match atoi ds with Some z => z | None => 0%Z end.
+  Definition step_kind (s : kstep) : kind :=
+    match s with SIdx ds => KUnion [SubIndex (step_idx ds)] | _ => KSingle (step_key s) end.
   Definition step_text (s : kstep) : string := text_of (render_step s).
   Definition pre_basic (s : kstep) : basic := {| text := step_text s; ctext := ""; vgroup := false; accessor := cfg_accessor cfg |}.
-  Definition pre_node (s : kstep) : node := Node (KSingle (step_key s)) (pre_basic s) ONone.
+  Definition pre_node (s : kstep) : node := Node (step_kind s) (pre_basic s) ONone.
 
-  Lemma set_last_text_mk t ps key b :
-    set_last_node_text t (mk (ps ++ [INode (Node (KSingle key) b ONone)])) = AOk (mk (ps ++ [INode (Node (KSingle key) (set_text t b) ONone)])).
+  Lemma step_kind_plain s : (forall ids aw uq, step_kind s <> KMulti ids aw uq) /\ (forall f p, step_kind s <> KAgg f p).
+  Proof. destruct s; split; intros; discriminate. Qed.
+
+  Lemma pop_mk ps x : pop (mk (ps ++ [x])) = AOk (x, mk ps).
+  Proof. unfold pop, mk. cbn [params]. rewrite rev_unit. unfold with_params. cbn [saved proot]. rewrite rev_involutive. reflexivity. Qed.
+
+  Lemma set_last_text_mk t ps k b : (forall ids aw uq, k <> KMulti ids aw uq) ->
+    set_last_node_text t (mk (ps ++ [INode (Node k b ONone)])) = AOk (mk (ps ++ [INode (Node k (set_text t b) ONone)])).
   Proof.
-    unfold set_last_node_text, pop_node, pop, mk. cbn [params]. rewrite rev_unit. cbn [abind with_params params saved proot].
-    unfold push, with_params. cbn [params saved proot]. rewrite rev_involutive. reflexivity.
+    intros Hk. unfold set_last_node_text, pop_node. rewrite pop_mk. cbn [abind].
+    unfold push, with_params, mk. cbn [params saved proot].
+    destruct k; try reflexivity. contradiction (Hk ids allWild uq). reflexivity.
   Qed.
 
   Lemma exec_step input p s ps toks cps b rest : step_ok s = true -> skipn p input = render_step s ++ rest ->
     execute (step_tokens p s ++ toks) input cps b (mk ps) = execute toks input (render_step s) p (mk (ps ++ [INode (pre_node s)])).
   Proof.
-    intros Hs Hin. destruct s as [q k|k].
+    intros Hs Hin. destruct s as [q k|k|ds].
     - cbn [step_ok] in Hs. apply q_ok in Hs. cbn [step_tokens app Actions.execute].
       assert (E1 : sub_list input (p + 2) (p + 2 + List.length (esc_cps q k)) = esc_cps q k).
       { apply (sub_at input p 2 [91; q] (esc_cps q k) ([q; 93] ++ rest)); [|reflexivity]. rewrite Hin. cbn [render_step app]. rewrite <- app_assoc. reflexivity. }
@@ -132,7 +150,7 @@ Section ChainExec.
       unfold push_single, push, with_params, mk. cbn [params saved proot].
       change (exec_action 7 (render_step (SBr q k)) p ?st) with (set_last_node_text (text_of (render_step (SBr q k))) st).
       fold (mk (ps ++ [INode (Node (KSingle (string_of_bytes (utf8 k))) (mk_basic (string_of_bytes (utf8 k)) false (acc cfg)) ONone)])).
-      rewrite set_last_text_mk. cbn [abind]. reflexivity.
+      rewrite set_last_text_mk by discriminate. cbn [abind]. reflexivity.
     - destruct k as [|c k]; [discriminate Hs|]. cbn [step_ok] in Hs. cbn [step_tokens app Actions.execute].
       assert (E1 : sub_list input (p + 1) (p + 1 + List.length (esc_dot_cps (c :: k))) = esc_dot_cps (c :: k)).
       { apply (sub_at input p 1 [46] (esc_dot_cps (c :: k)) rest); [|reflexivity]. rewrite Hin. reflexivity. }
@@ -145,7 +163,29 @@ Section ChainExec.
       rewrite E10. cbn [abind]. unfold push_single, push, with_params, mk. cbn [params saved proot].
       change (exec_action 4 (render_step (SDot (c :: k))) p ?st) with (set_last_node_text (text_of (render_step (SDot (c :: k)))) st).
       fold (mk (ps ++ [INode (Node (KSingle (string_of_bytes (utf8 (c :: k)))) (mk_basic (string_of_bytes (utf8 (c :: k))) false (acc cfg)) ONone)])).
-      rewrite set_last_text_mk. cbn [abind]. reflexivity.
+      rewrite set_last_text_mk by discriminate. cbn [abind]. reflexivity.
+    - destruct ds as [|d ds]; [discriminate Hs|]. cbn [step_ok] in Hs. apply andb_true_iff in Hs. destruct Hs as [Hd Ha].
+      destruct (atoi (d :: ds)) as [z|] eqn:Ez; [|discriminate Ha].
+      cbn [step_tokens]. unfold idx_tokens. cbn [app Actions.execute].
+      assert (E1 : sub_list input (p + 1) (p + 1 + List.length (d :: ds)) = d :: ds).
+      { apply (sub_at input p 1 [91] (d :: ds) ([93] ++ rest)); [|reflexivity]. rewrite Hin. cbn [render_step app]. rewrite <- app_assoc. reflexivity. }
+      assert (E2 : sub_list input p (p + List.length (d :: ds) + 2) = render_step (SIdx (d :: ds))).
+      { pose proof (sub_at input p 0 [] (render_step (SIdx (d :: ds))) rest Hin eq_refl) as H. rewrite Nat.add_0_r, render_len_idx in H.
+        replace (p + List.length (d :: ds) + 2)%nat with (p + (List.length (d :: ds) + 2))%nat by lia. exact H. }
+      rewrite E1, E2.
+      change (exec_action 17 (d :: ds) (p + 1) (mk ps)) with (push_index (d :: ds) false (mk ps)).
+      unfold push_index. rewrite Ez. cbn [abind]. unfold push, with_params, mk. cbn [params saved proot].
+      fold (mk (ps ++ [IIdx {| number := z; omitted := false |}])).
+      change (exec_action 19 (d :: ds) (p + 1) ?st) with
+        (abind (pop st) (fun '(x, st1) => match x with
+           | IIdx i => AOk (push (INode (Node (KUnion [SubIndex (number i)]) (mk_basic "" false (acc cfg)) ONone)) st1)
+           | ISub sb => AOk (push (INode (Node (KUnion [sb]) (mk_basic "" (sub_value_group sb) (acc cfg)) ONone)) st1)
+           | _ => ACrash "type assertion .(syntaxSubscript)" end)).
+      rewrite pop_mk. cbn [abind number]. unfold push, with_params, mk. cbn [params saved proot].
+      change (exec_action 7 (render_step (SIdx (d :: ds))) p ?st) with (set_last_node_text (text_of (render_step (SIdx (d :: ds)))) st).
+      fold (mk (ps ++ [INode (Node (KUnion [SubIndex z]) (mk_basic "" false (acc cfg)) ONone)])).
+      rewrite set_last_text_mk by discriminate. cbn [abind].
+      unfold pre_node, step_kind, step_idx. rewrite Ez. reflexivity.
   Qed.
 
   Lemma exec_steps input steps : forall p ps toks cps b, forallb step_ok steps = true -> skipn p input = render_steps steps ->
@@ -163,46 +203,52 @@ Section ChainExec.
 
   (* the chain before and after setConnectedText *)
   Fixpoint chain0 (l : list kstep) : onode :=
-    match l with [] => ONone | s :: r => OSome (Node (KSingle (step_key s)) (pre_basic s) (chain0 r)) end.
+    match l with [] => ONone | s :: r => OSome (Node (step_kind s) (pre_basic s) (chain0 r)) end.
   Fixpoint ctext_of (l : list kstep) : string :=
     match l with [] => ""%string | s :: r => (step_text s ++ ctext_of r)%string end.
   Definition fin_basic (s : kstep) (r : list kstep) : basic :=
     {| text := step_text s; ctext := (step_text s ++ ctext_of r)%string; vgroup := false; accessor := cfg_accessor cfg |}.
   Fixpoint chain1 (l : list kstep) : onode :=
-    match l with [] => ONone | s :: r => OSome (Node (KSingle (step_key s)) (fin_basic s r) (chain1 r)) end.
-  Definition chain_node (s : kstep) (r : list kstep) : node := Node (KSingle (step_key s)) (fin_basic s r) (chain1 r).
+    match l with [] => ONone | s :: r => OSome (Node (step_kind s) (fin_basic s r) (chain1 r)) end.
+  Definition chain_node (s : kstep) (r : list kstep) : node := Node (step_kind s) (fin_basic s r) (chain1 r).
 
   Lemma append_chain0 k b l s : (forall ids aw uq, k <> KMulti ids aw uq) ->
     append_deep (Node k b (chain0 l)) (pre_node s) = Node k b (chain0 (l ++ [s])).
   Proof.
     revert k b. induction l as [|x l IH]; intros k b Hk.
     - cbn [chain0 app]. destruct k; try reflexivity. contradiction (Hk ids allWild uq). reflexivity.
-    - cbn [chain0 app]. rewrite <- (IH (KSingle (step_key x)) (pre_basic x)) by discriminate.
+    - cbn [chain0 app]. rewrite <- (IH (step_kind x) (pre_basic x)) by (apply step_kind_plain).
       destruct k; try reflexivity. contradiction (Hk ids allWild uq). reflexivity.
   Qed.
+
+  Lemma chain_step_pre root s : chain_step (AOk root) (INode (pre_node s)) = AOk (append_deep root (pre_node s)).
+  Proof. destruct s; reflexivity. Qed.
 
   Lemma chain_fold rb steps : forall done,
     fold_left chain_step (map (fun s => INode (pre_node s)) steps) (AOk (Node KRoot rb (chain0 done))) =
     AOk (Node KRoot rb (chain0 (done ++ steps))).
   Proof.
     induction steps as [|s r IH]; intros done; cbn [map fold_left]; [rewrite app_nil_r; reflexivity|].
-    change (chain_step (AOk (Node KRoot rb (chain0 done))) (INode (pre_node s))) with (AOk (append_deep (Node KRoot rb (chain0 done)) (pre_node s))).
-    rewrite append_chain0 by discriminate. rewrite IH, <- app_assoc. reflexivity.
+    rewrite chain_step_pre, append_chain0 by discriminate. rewrite IH, <- app_assoc. reflexivity.
   Qed.
 
   Lemma chain0_vg l : match chain0 l with ONone => false | OSome m => chain_vg m end = false.
   Proof. induction l as [|s r IH]; [reflexivity|]. cbn [chain0 chain_vg pre_basic vgroup orb]. exact IH. Qed.
 
+  Lemma set_ctext_last k b p : (forall ids aw uq, k <> KMulti ids aw uq) -> (forall f q, k <> KAgg f q) ->
+    set_ctext_deep (Node k b ONone) p = Node k (set_ctext (text b ++ p) b) ONone.
+  Proof. intros H1 H2. destruct k; try reflexivity; [contradiction (H1 ids allWild uq)|contradiction (H2 f param)]; reflexivity. Qed.
+  Lemma set_ctext_next k b m p : (forall ids aw uq, k <> KMulti ids aw uq) -> (forall f q, k <> KAgg f q) ->
+    set_ctext_deep (Node k b (OSome m)) p =
+    Node k (set_ctext (text b ++ ctext (node_basic (set_ctext_deep m p))) b) (OSome (set_ctext_deep m p)).
+  Proof. intros H1 H2. destruct k; try reflexivity; [contradiction (H1 ids allWild uq)|contradiction (H2 f param)]; reflexivity. Qed.
+
   Lemma set_ctext_chain s r :
-    set_ctext_deep (Node (KSingle (step_key s)) (pre_basic s) (chain0 r)) "" = chain_node s r.
+    set_ctext_deep (Node (step_kind s) (pre_basic s) (chain0 r)) "" = chain_node s r.
   Proof.
-    revert s. induction r as [|x r IH]; intros s.
-    - reflexivity.
-    - cbn [chain0].
-      change (set_ctext_deep (Node (KSingle (step_key s)) (pre_basic s) (OSome (Node (KSingle (step_key x)) (pre_basic x) (chain0 r)))) "")
-        with (let m' := set_ctext_deep (Node (KSingle (step_key x)) (pre_basic x) (chain0 r)) "" in
-              Node (KSingle (step_key s)) (set_ctext (text (pre_basic s) ++ ctext (node_basic m')) (pre_basic s)) (OSome m')).
-      rewrite IH. reflexivity.
+    revert s. induction r as [|x r IH]; intros s; destruct (step_kind_plain s) as [P1 P2].
+    - cbn [chain0]. rewrite set_ctext_last by assumption. reflexivity.
+    - cbn [chain0]. rewrite set_ctext_next by assumption. rewrite IH. reflexivity.
   Qed.
 
   Definition root_basic : basic := mk_basic "$" false (cfg_accessor cfg).
